@@ -682,6 +682,34 @@ def drop_trivia(tree, ref):
     return total
 
 
+def _top_bindings(mod):
+    out = {}
+    for st in mod.body:
+        if isinstance(st, ast.Import):
+            for a in st.names:
+                out[(a.asname or a.name).split('.')[0]] = 'import ' + (a.name if a.asname else a.name.split('.')[0])
+        elif isinstance(st, ast.ImportFrom):
+            for a in st.names:
+                out[a.asname or a.name] = 'from %s%s import %s' % ('.' * st.level, st.module or '', a.name)
+        elif isinstance(st, ast.Assign):
+            for t in st.targets:
+                if isinstance(t, ast.Name):
+                    out[t.id] = '= ' + _txt(st.value)
+        elif isinstance(st, (ast.ClassDef, ast.FunctionDef)):
+            out[st.name] = 'def ' + st.name
+    return out
+
+
+def _same_globals(d, src_mod, dst_mod):
+    """every module-level name the definition reads is bound the same way in both modules (so the text means the same in either)"""
+    import builtins
+    bound = {n.id for n in ast.walk(d) if isinstance(n, ast.Name) and isinstance(n.ctx, ast.Store)} | {a.arg for n in ast.walk(d) if isinstance(n, ast.arguments)
+                                                                                                     for a in n.posonlyargs + n.args + n.kwonlyargs + [x for x in (n.vararg, n.kwarg) if x]}
+    free = {n.id for n in ast.walk(d) if isinstance(n, ast.Name) and isinstance(n.ctx, ast.Load)} - bound - set(dir(builtins)) - {d.name}
+    a, b = _top_bindings(src_mod), _top_bindings(dst_mod)
+    return all(n in a and n in b and a[n] == b[n] for n in free)
+
+
 def pull_back_moved(tree, ref, path, model):
     """A class or function the reference defines in this module that now lives in a NEW sibling module (one the reference tree
     does not have) and is imported back: the definition is put back where the import stands.  Which file holds the text of a
@@ -691,15 +719,13 @@ def pull_back_moved(tree, ref, path, model):
     want = set(ref.get('classes', [])) | {f for f in ref.get('funcs', []) if '.' not in f}
     have = {q for q, _ in classes(tree)} | {q for q, _ in functions(tree) if '.' not in q}
     missing = want - have
-    if not missing:
-        return 0
     refmods = _ref()
     total = 0
     pkg = path.rsplit('/', 1)[0] if '/' in path else ''
     for i, st in enumerate(list(tree.body)):
         if not isinstance(st, ast.ImportFrom):
             continue
-        names = [a for a in st.names if (a.asname or a.name) in missing and (a.asname is None or a.asname == a.name)]
+        names = [a for a in st.names if ((a.asname or a.name) not in have or (a.asname or a.name) in missing)]
         if not names:
             continue
         if st.level:
@@ -710,25 +736,77 @@ def pull_back_moved(tree, ref, path, model):
         else:
             modpath = (st.module or '').replace('.', '/')
         cand = [c for c in (modpath + '.py', modpath + '/__init__.py') if model.exists(c)]
-        if not cand or cand[0] in refmods:
-            continue                       # not found, or a module the reference knows (a real dependency, not a move)
+        if not cand:
+            continue
+        if cand[0] in refmods:
+            # a module the reference knows: a real dependency, unless the name is a definition the reference has HERE and not there
+            oref = refmods[cand[0]]
+            there = set(oref.get('classes', [])) | {f for f in oref.get('funcs', []) if '.' not in f} | set(oref.get('consts', []))
+            names = [a for a in names if a.name in missing and (a.asname or a.name) == a.name and a.name not in there and 'classes' in oref]
+            if not names:
+                continue
         try:
             other = ast.parse(model.source(cand[0]))
         except SyntaxError:
             continue
         defs = {d.name: d for d in other.body if isinstance(d, (ast.ClassDef, ast.FunctionDef))}
-        moved = [defs[a.name] for a in names if a.name in defs]
+        moved = []
+        for a in names:
+            if a.name in defs and (cand[0] not in refmods or _same_globals(defs[a.name], other, tree)):
+                d_ = copy.deepcopy(defs[a.name])
+                d_.name = a.asname or a.name              # imported under another name: defined under that name here
+                moved.append(d_)
         if not moved:
             continue
         # the imports the moved code needs come along (behind the existing imports; duplicates are harmless)
-        extra = [d for d in other.body if isinstance(d, (ast.Import, ast.ImportFrom)) and not (isinstance(d, ast.ImportFrom) and d.level and
+        extra = [d for d in other.body if isinstance(d, (ast.Import, ast.ImportFrom)) and cand[0] not in refmods and not (isinstance(d, ast.ImportFrom) and d.level and
                  (d.module or '').split('.')[0] == path.rsplit('/', 1)[-1][:-3])]
-        st.names = [a for a in st.names if a.name not in {d.name for d in moved}]
+        st.names = [a for a in st.names if (a.asname or a.name) not in {d.name for d in moved}]
         idx = tree.body.index(st)
         tree.body[idx + 1:idx + 1] = extra + moved
         if not st.names:
             tree.body.remove(st)
         total += len(moved)
+    return total
+
+
+def drop_moved_away(tree, ref, path, model):
+    """The other half of a move into an EXISTING module: a top-level class/function this module's reference does not have, that the
+    reference of another module has, and that this other module now imports from here instead of defining it."""
+    if model is None or 'classes' not in ref:
+        return 0
+    mine = set(ref.get('classes', [])) | {f for f in ref.get('funcs', []) if '.' not in f}
+    new = [d for d in tree.body if isinstance(d, (ast.ClassDef, ast.FunctionDef)) and d.name not in mine]
+    if not new:
+        return 0
+    modname = path[:-3].replace('/', '.') if not path.endswith('/__init__.py') else path[:-len('/__init__.py')].replace('/', '.')
+    total = 0
+    for d in new:
+        if any(isinstance(n, ast.Name) and n.id == d.name for x in tree.body if x is not d for n in ast.walk(x)):
+            continue                                   # used here as well
+        for opath, oref in _ref().items():
+            if opath == path or 'classes' not in oref:
+                continue
+            if d.name not in set(oref.get('classes', [])) | {f for f in oref.get('funcs', []) if '.' not in f}:
+                continue
+            if not model.exists(opath):
+                continue
+            try:
+                other = ast.parse(model.source(opath))
+            except SyntaxError:
+                continue
+            if any(isinstance(x, (ast.ClassDef, ast.FunctionDef)) and x.name == d.name for x in other.body):
+                continue
+            pkg = opath.rsplit('/', 1)[0].replace('/', '.')
+            for x in other.body:
+                if isinstance(x, ast.ImportFrom) and any(a.name == d.name and a.asname in (None, d.name) for a in x.names):
+                    src = (x.module or '') if not x.level else '.'.join([p_ for p_ in (pkg.rsplit('.', x.level - 1)[0] if x.level > 1 else pkg, x.module) if p_])
+                    if src == modname:
+                        tree.body.remove(d)
+                        total += 1
+                        break
+            if d not in tree.body:
+                break
     return total
 
 
@@ -763,7 +841,14 @@ def lower_match(tree, ref):
                     (isinstance(subj, ast.Subscript) and isinstance(subj.slice, ast.Constant) and _root(subj) is not None)
                 if not simple:
                     if not _harmless(subj):
-                        continue
+                        # the subject is evaluated once: bind it first and compare the local
+                        tmp = 'match_subject'
+                        k = 0
+                        while any(isinstance(n, ast.Name) and n.id == tmp for n in ast.walk(fn)):
+                            k += 1
+                            tmp = 'match_subject%d' % k
+                        lead = [ast.copy_location(ast.Assign(targets=[ast.Name(id=tmp, ctx=ast.Store())], value=subj, lineno=st.lineno), st)]
+                        subj = ast.copy_location(ast.Name(id=tmp, ctx=ast.Load()), subj)
                 tests, ok = [], True
                 for c in st.cases:
                     if isinstance(c.pattern, ast.MatchAs) and c.pattern.pattern is None and c.pattern.name is None:
@@ -839,12 +924,24 @@ def dissolve_enums(tree, ref):
     total = [0]
 
     class T(ast.NodeTransformer):
+        cur_cls, has_self = None, False
+
+        def visit_FunctionDef(self, n):
+            old = self.has_self
+            self.has_self = bool(n.args.args) and n.args.args[0].arg == 'self' and not any(_txt(d) in ('staticmethod', 'classmethod') for d in n.decorator_list)
+            self.generic_visit(n)
+            self.has_self = old
+            return n
+
         def visit_Attribute(self, n):
             mm = member(n)
             if mm and isinstance(n.ctx, ast.Load):
                 total[0] += 1
                 if mm in alias:
-                    return ast.copy_location(ast.parse(alias[mm], mode='eval').body, n)
+                    txt = alias[mm]
+                    if self.cur_cls and self.has_self and txt.startswith(self.cur_cls + '.'):
+                        txt = 'self.' + txt[len(self.cur_cls) + 1:]           # inside the class the reference reads its constants through self
+                    return ast.copy_location(ast.parse(txt, mode='eval').body, n)
                 return _const_node(enums[mm[0]][0][mm[1]], n)
             self.generic_visit(n)
             return n
@@ -860,7 +957,10 @@ def dissolve_enums(tree, ref):
         def visit_ClassDef(self, n):
             if n.name in enums:
                 return n
+            old = self.cur_cls
+            self.cur_cls = n.name
             self.generic_visit(n)
+            self.cur_cls = old
             return n
     for s_, v in alias_stmts:
         s_.value = _const_node(v, s_.value)
@@ -884,7 +984,7 @@ def _namedtuple_fields(cls):
     return fields or None
 
 
-def dissolve_namedtuples(tree, ref):
+def dissolve_namedtuples(tree, ref, path=None, model=None):
     """(1) a NEW `class X(NamedTuple)` used to give names to a tuple the reference passes around bare: `X(a, b)` is the tuple `(a, b)`,
     and `.field` - when no attribute of that name exists in the reference module - is the index.  (2) a record the reference builds
     with collections.namedtuple that is now spelled as a typing.NamedTuple class goes back to `X = namedtuple('X', 'a b ..')`."""
@@ -905,6 +1005,34 @@ def dissolve_namedtuples(tree, ref):
             total += 1
         elif st.name not in known_classes and st.name not in known_consts:
             new_nt[st.name] = fields
+    # records of the same kind imported from another module of the package (new there as well)
+    if model is not None and path is not None:
+        refmods = _ref()
+        pkg = path.rsplit('/', 1)[0] if '/' in path else ''
+        for st in tree.body:
+            if not isinstance(st, ast.ImportFrom):
+                continue
+            if st.level:
+                base = pkg
+                for _ in range(st.level - 1):
+                    base = base.rsplit('/', 1)[0] if '/' in base else ''
+                modpath = (base + '/' if base else '') + (st.module or '').replace('.', '/')
+            else:
+                modpath = (st.module or '').replace('.', '/')
+            cand = [c for c in (modpath + '.py', modpath + '/__init__.py') if model.exists(c)]
+            if not cand:
+                continue
+            oref = refmods.get(cand[0], {})
+            try:
+                other = ast.parse(model.source(cand[0]))
+            except SyntaxError:
+                continue
+            for d in other.body:
+                if isinstance(d, ast.ClassDef) and any((a.asname or a.name) == d.name for a in st.names) and d.name not in oref.get('classes', [d.name]) and \
+                        d.name not in oref.get('consts', []):
+                    f_ = _namedtuple_fields(d)
+                    if f_:
+                        new_nt[d.name] = f_
     if not new_nt:
         return total
     index_of = {}
@@ -967,9 +1095,20 @@ def dissolve_namedtuples(tree, ref):
             self.generic_visit(n)
             nm = n.func.id if isinstance(n.func, ast.Name) else None
             f_ = fn_of.get(id(n))
+            if isinstance(n.func, ast.Attribute) and n.func.attr == '_make' and isinstance(n.func.value, ast.Name) and n.func.value.id in new_nt and len(n.args) == 1 and not n.keywords:
+                cnt[0] += 1                         # NT._make(seq) is the tuple of seq
+                a_ = n.args[0]
+                return a_ if isinstance(a_, ast.Call) and _txt(a_.func) in ('struct.unpack', 'struct.unpack_from') else \
+                    ast.copy_location(ast.Call(func=ast.Name(id='tuple', ctx=ast.Load()), args=[a_], keywords=[]), n)
+            kind_ = typed.get((id(f_), n.func.value.id)) if f_ is not None and isinstance(n.func, ast.Attribute) and isinstance(n.func.value, ast.Name) else None
+            if kind_ is None and isinstance(n.func, ast.Attribute) and n.func.attr == '_replace' and isinstance(n.func.value, ast.Name) and n.keywords and all(k.arg for k in n.keywords):
+                # an untyped receiver: _replace exists on named tuples only, and the keywords name fields of exactly one of the new ones
+                fits = [t_ for t_, fl_ in new_nt.items() if {k.arg for k in n.keywords} <= {x for x, _ in fl_}]
+                if len(fits) == 1 and (id(f_), n.func.value.id) not in typed:
+                    kind_ = fits[0]
             if isinstance(n.func, ast.Attribute) and n.func.attr == '_replace' and isinstance(n.func.value, ast.Name) and f_ is not None and \
-                    typed.get((id(f_), n.func.value.id)) and not n.args and all(k.arg for k in n.keywords):
-                fields_ = [x for x, _ in new_nt[typed[(id(f_), n.func.value.id)]]]
+                    kind_ and not n.args and all(k.arg for k in n.keywords):
+                fields_ = [x for x, _ in new_nt[kind_]]
                 kw_ = {k.arg: k.value for k in n.keywords}
                 if set(kw_) <= set(fields_):
                     cnt[0] += 1
@@ -1059,7 +1198,7 @@ def undo_dataclasses(tree, ref):
         deco = [d for d in c.decorator_list if _txt(d.func if isinstance(d, ast.Call) else d).split('.')[-1] == 'dataclass']
         if not deco or (q + '.__init__') not in known or any(isinstance(st, ast.FunctionDef) and st.name == '__init__' for st in c.body):
             continue
-        params, defaults, body, tail = [ast.arg(arg='self')], [], [], []
+        params, defaults, body, tail, gone = [ast.arg(arg='self')], [], [], [], []
         ok = True
         for st in list(c.body):
             if not (isinstance(st, ast.AnnAssign) and isinstance(st.target, ast.Name)):
@@ -1075,10 +1214,20 @@ def undo_dataclasses(tree, ref):
             elif v is not None:
                 dflt = v
             tgt = ast.Attribute(value=ast.Name(id='self', ctx=ast.Load()), attr=f, ctx=ast.Store())
-            if init:
-                if factory is not None:
-                    ok = False                    # a caller may pass it: keep exact semantics out of reach
+            if init and factory is not None:
+                # a factory field is a constructor parameter too; where the reference's constructor has no such parameter and no call in
+                # the module passes one, the field always gets a fresh factory() value
+                old_params = (ref.get('params') or {}).get(q + '.__init__')
+                n_old = len(old_params) - 1 if old_params is not None else None
+                cname = q.split('.')[-1]
+                sites = [n for n in ast.walk(tree) if isinstance(n, ast.Call) and
+                         (n.func.attr if isinstance(n.func, ast.Attribute) else n.func.id if isinstance(n.func, ast.Name) else None) == cname]
+                if old_params is None or f in old_params or any(
+                        len(n.args) > n_old or any(isinstance(x, ast.Starred) for x in n.args) or any(k.arg is None or k.arg not in old_params for k in n.keywords) for n in sites):
+                    ok = False                    # a caller may pass it: exact semantics out of reach
                     break
+                init = False
+            if init:
                 params.append(ast.arg(arg=f))
                 if dflt is not None:
                     defaults.append(dflt)
@@ -1091,9 +1240,11 @@ def undo_dataclasses(tree, ref):
                 if val is None:
                     continue
                 tail.append(ast.copy_location(ast.Assign(targets=[tgt], value=val, lineno=st.lineno), st))
-            c.body.remove(st)
+            gone.append(st)
         if not ok:
             continue
+        for st in gone:
+            c.body.remove(st)
         post = [st for st in c.body if isinstance(st, ast.FunctionDef) and st.name == '__post_init__']
         extra = []
         if post and len(post[0].args.args) == 1:
@@ -1256,6 +1407,78 @@ def scalarise_records(tree, ref):
     return total
 
 
+def scalarise_tuple_locals(tree, ref, ref_locals):
+    """A local the reference does not have that only ever holds tuple displays of one length and is only read as `v[<const>]` is a
+    group of locals: `v = (a, f(v[1]))` -> `v_1 = f(v_1)` (components that are carried over unchanged need no statement)."""
+    total = 0
+    for q, fn in functions(tree):
+        want = (ref_locals or {}).get(q)
+        if want is None:
+            continue
+        cands = {}
+        for st in _own_walk(fn):
+            if isinstance(st, ast.Assign) and len(st.targets) == 1 and isinstance(st.targets[0], ast.Name) and st.targets[0].id not in want:
+                v = st.targets[0].id
+                if isinstance(st.value, ast.Tuple) and not any(isinstance(e, ast.Starred) for e in st.value.elts):
+                    cands.setdefault(v, set()).add(len(st.value.elts))
+                else:
+                    cands.setdefault(v, set()).add(-1)
+        params = {a.arg for a in fn.args.posonlyargs + fn.args.args + fn.args.kwonlyargs}
+        for v, lens in cands.items():
+            if len(lens) != 1 or -1 in lens or v in params:
+                continue
+            n = next(iter(lens))
+            occ = [x for x in ast.walk(fn) if isinstance(x, ast.Name) and x.id == v]
+            subs = [x for x in ast.walk(fn) if isinstance(x, ast.Subscript) and isinstance(x.value, ast.Name) and x.value.id == v and isinstance(x.ctx, ast.Load) and
+                    isinstance(x.slice, ast.Constant) and isinstance(x.slice.value, int) and 0 <= x.slice.value < n]
+            stores_ = [x for x in occ if isinstance(x.ctx, ast.Store)]
+            if len(occ) != len(subs) + len(stores_):
+                continue                                  # used as a whole somewhere (returned, passed, unpacked)
+            names = ['%s_%d' % (v, i) for i in range(n)]
+            if any(nm in _stores(fn) or nm in params for nm in names):
+                continue
+            ok = True
+            for block in _blocks(fn):
+                for st in block:
+                    if isinstance(st, ast.Assign) and len(st.targets) == 1 and isinstance(st.targets[0], ast.Name) and st.targets[0].id == v:
+                        for i, e in enumerate(st.value.elts):
+                            ident = isinstance(e, ast.Subscript) and isinstance(e.value, ast.Name) and e.value.id == v and isinstance(e.slice, ast.Constant) and e.slice.value == i
+                            reads = {x.slice.value for x in ast.walk(e) if isinstance(x, ast.Subscript) and isinstance(x.value, ast.Name) and x.value.id == v and isinstance(x.slice, ast.Constant)}
+                            # a component may read itself, and components that this statement carries over unchanged
+                            for j in reads - {i}:
+                                ej = st.value.elts[j]
+                                if not (isinstance(ej, ast.Subscript) and isinstance(ej.value, ast.Name) and ej.value.id == v and isinstance(ej.slice, ast.Constant) and ej.slice.value == j):
+                                    ok = False
+            if not ok:
+                continue
+
+            class T(ast.NodeTransformer):
+                def visit_Subscript(self, x):
+                    if isinstance(x.value, ast.Name) and x.value.id == v and isinstance(x.slice, ast.Constant) and isinstance(x.slice.value, int) and isinstance(x.ctx, ast.Load):
+                        return ast.copy_location(ast.Name(id=names[x.slice.value], ctx=ast.Load()), x)
+                    self.generic_visit(x)
+                    return x
+            for block in _blocks(fn):
+                i = 0
+                while i < len(block):
+                    st = block[i]
+                    if isinstance(st, ast.Assign) and len(st.targets) == 1 and isinstance(st.targets[0], ast.Name) and st.targets[0].id == v:
+                        new = []
+                        for k, e in enumerate(st.value.elts):
+                            if isinstance(e, ast.Subscript) and isinstance(e.value, ast.Name) and e.value.id == v and isinstance(e.slice, ast.Constant) and e.slice.value == k:
+                                continue
+                            new.append(ast.copy_location(ast.Assign(targets=[ast.Name(id=names[k], ctx=ast.Store())], value=T().visit(e), lineno=st.lineno), st))
+                        block[i:i + 1] = new or [ast.copy_location(ast.Pass(), st)]
+                        i += len(new) or 1
+                        continue
+                    i += 1
+            fn.body = [T().visit(x) for x in fn.body]
+            total += 1
+    if total:
+        ast.fix_missing_locations(tree)
+    return total
+
+
 def restore_self(tree, ref):
     """A method the reference wrote with `self` that was made a @staticmethod (it never used self) gets its first parameter back;
     `Class.m(..)` calls from methods of the class become `self.m(..)`.  Which object the function is looked up on does not change what
@@ -1363,6 +1586,133 @@ def restore_closures(tree, ref):
                 if isinstance(b, list) and helper in b:
                     b.remove(helper)
         total += 1
+    return total
+
+
+def restore_closures_from_objects(tree, ref):
+    """A nested function of the reference that became a small callable-object class: `h = K(a, b)` ... `h.m` where K.__init__ only
+    stores its arguments and m is K's only other method  ->  the nested function again, with a, b captured.  The object keeps the values
+    it was built with, a closure reads the variables when called: only names the enclosing function never re-binds may be captured."""
+    if 'classes' not in ref:
+        return 0
+    known = set(ref.get('funcs', []))
+    known_classes = set(ref.get('classes', []))
+    total = 0
+    cands = {}
+    for st in tree.body:
+        if not (isinstance(st, ast.ClassDef) and st.name not in known_classes and not st.decorator_list and not st.keywords and
+                all(_txt(b) == 'object' for b in st.bases)):
+            continue
+        body = st.body[1:] if _has_doc(st.body) else st.body
+        body = [x for x in body if not (isinstance(x, ast.Assign) and len(x.targets) == 1 and _txt(x.targets[0]) == '__slots__')]
+        if len(body) != 2 or not all(isinstance(x, ast.FunctionDef) and not x.decorator_list for x in body):
+            continue
+        init = [x for x in body if x.name == '__init__']
+        meth = [x for x in body if x.name != '__init__']
+        if len(init) != 1 or len(meth) != 1 or meth[0].name.startswith('__'):
+            continue
+        ia = init[0].args
+        if ia.vararg or ia.kwarg or ia.kwonlyargs or ia.posonlyargs or ia.defaults or not ia.args:
+            continue
+        me = ia.args[0].arg
+        params = [a.arg for a in ia.args[1:]]
+        amap, ok = {}, True
+        for x in (init[0].body[1:] if _has_doc(init[0].body) else init[0].body):
+            if isinstance(x, ast.Assign) and len(x.targets) == 1 and isinstance(x.targets[0], ast.Attribute) and isinstance(x.targets[0].value, ast.Name) and \
+                    x.targets[0].value.id == me and isinstance(x.value, ast.Name) and x.value.id in params and x.targets[0].attr not in amap:
+                amap[x.targets[0].attr] = x.value.id
+            else:
+                ok = False
+        ma = meth[0].args
+        if not ok or ma.vararg or ma.kwarg or ma.kwonlyargs or ma.posonlyargs or not ma.args:
+            continue
+        cands[st.name] = (st, params, amap, meth[0])
+    if not cands:
+        return 0
+    fl = functions(tree)
+    have = {q for q, _ in fl}
+    for q, fn in fl:
+        pre = q + '.<locals>.'
+        missing = [k for k in known if k.startswith(pre) and '.<locals>.' not in k[len(pre):] and k not in have]
+        if len(missing) != 1:
+            continue
+        short = missing[0][len(pre):]
+        for block in _blocks(fn):
+            for i, st in enumerate(block):
+                if not (isinstance(st, ast.Assign) and len(st.targets) == 1 and isinstance(st.targets[0], ast.Name) and isinstance(st.value, ast.Call) and
+                        isinstance(st.value.func, ast.Name) and st.value.func.id in cands and not st.value.keywords):
+                    continue
+                klass, params, amap, m = cands[st.value.func.id]
+                h = st.targets[0].id
+                args = st.value.args
+                if len(args) != len(params) or any(isinstance(a, ast.Starred) for a in args):
+                    continue
+                stored = _stores(fn.body)
+                fparams = {a.arg for a in fn.args.posonlyargs + fn.args.args + fn.args.kwonlyargs}
+                nstores = {}
+                for n in _own_walk(fn):
+                    if isinstance(n, ast.Name) and isinstance(n.ctx, ast.Store):
+                        nstores[n.id] = nstores.get(n.id, 0) + 1
+                if not all(isinstance(a, ast.Constant) or (isinstance(a, ast.Name) and (a.id not in stored or (a.id not in fparams and nstores.get(a.id) == 1))) for a in args):
+                    continue
+                if nstores.get(h) != 1 or short in stored or short in fparams or any(isinstance(n, ast.Name) and n.id == short for n in ast.walk(fn)):
+                    continue
+                # every other mention of h is `h.m`
+                uses = [n for n in ast.walk(fn) if isinstance(n, ast.Name) and n.id == h and n is not st.targets[0]]
+                attrs = [n for n in ast.walk(fn) if isinstance(n, ast.Attribute) and isinstance(n.value, ast.Name) and n.value.id == h and n.attr == m.name and isinstance(n.ctx, ast.Load)]
+                if len(uses) != len(attrs):
+                    continue
+                me = m.args.args[0].arg
+                given = dict(zip(params, args))
+                body = copy.deepcopy(m.body)
+                bad = [False]
+
+                class S(ast.NodeTransformer):
+                    def visit_Attribute(self, n):
+                        if isinstance(n.value, ast.Name) and n.value.id == me:
+                            if n.attr in amap and isinstance(n.ctx, ast.Load):
+                                return ast.copy_location(copy.deepcopy(given[amap[n.attr]]), n)
+                            if n.attr == m.name and isinstance(n.ctx, ast.Load):
+                                return ast.copy_location(ast.Name(id=short, ctx=ast.Load()), n)
+                            bad[0] = True
+                            return n
+                        self.generic_visit(n)
+                        return n
+
+                    def visit_Name(self, n):
+                        if n.id == me:
+                            bad[0] = True
+                        return n
+                body = [S().visit(x) for x in body]
+                # names of the method body must mean the same in the enclosing function: its own parameters/locals shadow nothing captured
+                mlocals = set(_stores(m.body)) | {a.arg for a in m.args.args[1:]}
+                captured = {a.id for a in args if isinstance(a, ast.Name)}
+                if bad[0] or (mlocals & captured):
+                    continue
+                nd = len(m.args.defaults)
+                rest = m.args.args[1:]
+                nested = ast.FunctionDef(name=short, args=ast.arguments(posonlyargs=[], args=copy.deepcopy(rest), vararg=None, kwonlyargs=[], kw_defaults=[], kwarg=None,
+                                                                        defaults=copy.deepcopy(m.args.defaults[max(0, nd - len(rest)):]) if nd else []),
+                                         body=body, decorator_list=[], returns=None, type_comment=None, type_params=[])
+                ast.copy_location(nested, st)
+                block[i] = nested
+
+                class R(ast.NodeTransformer):
+                    def visit_Attribute(self, n):
+                        if any(n is a for a in attrs):
+                            return ast.copy_location(ast.Name(id=short, ctx=ast.Load()), n)
+                        self.generic_visit(n)
+                        return n
+                for k, x in enumerate(fn.body):
+                    if x is not nested:
+                        fn.body[k] = R().visit(x)
+                total += 1
+                break
+    if total:
+        for name, (klass, _, _, _) in cands.items():
+            if not any(isinstance(n, ast.Name) and n.id == name for n in ast.walk(tree)) and klass in tree.body:
+                tree.body.remove(klass)
+        ast.fix_missing_locations(tree)
     return total
 
 
@@ -1978,12 +2328,49 @@ class _JoinTuples(ast.NodeTransformer):
         return n
 
 
+def _deferred_position(stmt, call):
+    """the call is not evaluated exactly once when the statement runs: it sits in a lambda, in the repeated part of a comprehension,
+    behind a short-circuit operator or in a branch of a conditional expression. Statements cannot be hoisted out of such a place."""
+    def walk(n, deferred):
+        if n is call:
+            return deferred
+        if isinstance(n, ast.Lambda):
+            kids = [(n.body, True)] + [(d, deferred) for d in n.args.defaults + [k for k in n.args.kw_defaults if k is not None]]
+        elif isinstance(n, (ast.ListComp, ast.SetComp, ast.GeneratorExp, ast.DictComp)):
+            kids = [(n.generators[0].iter, deferred or isinstance(n, ast.GeneratorExp))]
+            for x in ([n.key, n.value] if isinstance(n, ast.DictComp) else [n.elt]):
+                kids.append((x, True))
+            for k, g in enumerate(n.generators):
+                kids += [(c, True) for c in g.ifs]
+                if k:
+                    kids.append((g.iter, True))
+        elif isinstance(n, ast.BoolOp):
+            kids = [(v, deferred or k > 0) for k, v in enumerate(n.values)]
+        elif isinstance(n, ast.IfExp):
+            kids = [(n.test, deferred), (n.body, True), (n.orelse, True)]
+        else:
+            kids = [(c, deferred) for c in ast.iter_child_nodes(n)]
+        for c, d in kids:
+            r = walk(c, d)
+            if r is not None:
+                return r
+        return None
+    for root in _stmt_exprs(stmt):
+        r = walk(root, False)
+        if r is not None:
+            return r
+    return False
+
+
 def _expand_call(stmt, call, helper, skip_first, caller_names=frozenset()):
     """statements replacing ``stmt`` when ``call`` (inside it) is expanded with the body of ``helper``; None if this site cannot be expanded"""
     b = _bind(helper, call, skip_first)
     if b is None:
         return None
     sub, lead = b
+    deferred = _deferred_position(stmt, call)
+    if deferred and lead:
+        return None
     body = copy.deepcopy(helper.body[1:] if _has_doc(helper.body) else helper.body)
     # names the helper binds itself (its locals, and parameters that need a leading assignment) live in their own scope: where the
     # caller uses the same name for something else they get a name of their own
@@ -2060,8 +2447,8 @@ def _expand_call(stmt, call, helper, skip_first, caller_names=frozenset()):
     # (d) call embedded in a larger expression of a simple statement / an if test: single trailing return
     if len(rets) == 1 and isinstance(body[-1], ast.Return) and body[-1].value is not None:
         pre, val = body[:-1], body[-1].value
-        if isinstance(stmt, ast.While) and pre:
-            return None                                    # a loop test is evaluated on every iteration
+        if (isinstance(stmt, ast.While) or deferred) and pre:
+            return None                                    # a loop test is evaluated on every iteration, a deferred position maybe never
         if pre and not isinstance(stmt, (ast.Expr, ast.Assign, ast.AugAssign, ast.Return, ast.If, ast.AnnAssign, ast.For)):
             return None
 
@@ -2082,7 +2469,7 @@ def _expand_call(stmt, call, helper, skip_first, caller_names=frozenset()):
         return lead + pre + [new]
     # (e) call inside the test of an if / the value of a simple statement, helper with several returns: bind the result first,
     #     the binding is then expanded as case (c) on the next pass
-    if rets and isinstance(stmt, (ast.If, ast.Assign, ast.AugAssign, ast.Expr, ast.Return)):
+    if rets and not deferred and isinstance(stmt, (ast.If, ast.Assign, ast.AugAssign, ast.Expr, ast.Return)):
         tmp = '%s_result' % helper.name.lstrip('_')
         bind = ast.copy_location(ast.Assign(targets=[ast.Name(id=tmp, ctx=ast.Store())], value=call, lineno=stmt.lineno), stmt)
 
@@ -2548,6 +2935,19 @@ def expand_ifexps(tree, ref):
             for block in _blocks(fn):
                 for i, st in enumerate(block):
                     v = st.value if isinstance(st, (ast.Assign, ast.Return, ast.AugAssign)) else None
+                    # T.m(A if c else B) as a statement (plain name/attribute receiver) -> if c: T.m(A) else: T.m(B)
+                    if isinstance(st, ast.Expr) and isinstance(st.value, ast.Call) and len(st.value.args) == 1 and not st.value.keywords and \
+                            isinstance(st.value.args[0], ast.IfExp) and _shape_txt(st.value.args[0]) not in keep and \
+                            all(isinstance(n, (ast.Name, ast.Attribute, ast.Load)) for n in ast.walk(st.value.func)):
+                        ie = st.value.args[0]
+
+                        def mkc(x):
+                            c2 = ast.Call(func=copy.deepcopy(st.value.func), args=[x], keywords=[])
+                            return ast.copy_location(ast.Expr(value=ast.copy_location(c2, st.value)), st)
+                        block[i] = ast.copy_location(ast.If(test=ie.test, body=[mkc(ie.body)], orelse=[mkc(ie.orelse)]), st)
+                        changed = True
+                        total += 1
+                        break
                     if isinstance(v, ast.IfExp) and _shape_txt(v) not in keep:
                         def mk(x):
                             s2 = copy.copy(st)
@@ -2690,6 +3090,51 @@ def unroll_loops(tree, ref):
 
 
 # ---------------------------------------------------------------------------------------------- 6. comprehensions
+def lower_any_tests(tree, ref):
+    """`if any(E for v in R): B` (a generator the reference does not have, no else) -> `for v in R: if E: B; break`: the generator is
+    consumed lazily and any() stops at the first true element, exactly as the loop with break."""
+    known = ref.get('comps', {})
+    total = 0
+    for q, fn in functions(tree):
+        keep = set(known.get(q, []))
+        for block in _blocks(fn):
+            for i, st in enumerate(block):
+                if not (isinstance(st, ast.If) and not st.orelse and isinstance(st.test, ast.Call) and _txt(st.test.func) == 'any' and len(st.test.args) == 1 and
+                        not st.test.keywords and isinstance(st.test.args[0], ast.GeneratorExp)):
+                    continue
+                comp = st.test.args[0]
+                if _shape_txt(comp) in keep or len(comp.generators) != 1 or comp.generators[0].ifs or comp.generators[0].is_async:
+                    continue
+                g = comp.generators[0]
+                cvars = {n.id for n in ast.walk(g.target) if isinstance(n, ast.Name)}
+                elsewhere = [n for n in ast.walk(fn) if isinstance(n, ast.Name) and n.id in cvars and not any(n is x for x in ast.walk(comp)) and not _rebound_around(fn, n)]
+                if elsewhere:
+                    continue
+                # a break / continue of the body would bind to the new loop
+                def loose(stmts):
+                    for x in stmts:
+                        if isinstance(x, (ast.Break, ast.Continue)):
+                            return True
+                        if isinstance(x, (ast.For, ast.While, ast.FunctionDef, ast.AsyncFunctionDef, ast.ClassDef)):
+                            continue
+                        for f in ('body', 'orelse', 'finalbody'):
+                            if loose(getattr(x, f, []) or []):
+                                return True
+                        for h in getattr(x, 'handlers', []) or []:
+                            if loose(h.body):
+                                return True
+                    return False
+                if loose(st.body):
+                    continue
+                for n in ast.walk(g.target):
+                    if isinstance(n, ast.Name):
+                        n.ctx = ast.Store()
+                inner = ast.copy_location(ast.If(test=comp.elt, body=st.body + [ast.copy_location(ast.Break(), st.body[-1])], orelse=[]), st)
+                block[i] = ast.copy_location(ast.For(target=g.target, iter=g.iter, body=[inner], orelse=[], lineno=st.lineno), st)
+                total += 1
+    return total
+
+
 def expand_comprehensions(tree, ref):
     """x = [e for v in L if c] / {k: e for ...} / sum(e for ...) unknown to the reference -> initialisation + loop"""
     known = ref.get('comps', {})
@@ -2703,6 +3148,28 @@ def expand_comprehensions(tree, ref):
             changed = False
             for block in _blocks(fn):
                 for i, st in enumerate(block):
+                    # T.extend(e for v in L if c) as a statement -> for v in L: if c: T.append(e)   (elements are appended as they are produced)
+                    if isinstance(st, ast.Expr) and isinstance(st.value, ast.Call) and isinstance(st.value.func, ast.Attribute) and st.value.func.attr == 'extend' and \
+                            isinstance(st.value.func.value, (ast.Name, ast.Attribute)) and len(st.value.args) == 1 and not st.value.keywords and \
+                            isinstance(st.value.args[0], (ast.GeneratorExp, ast.ListComp)) and _shape_txt(st.value.args[0]) not in keep:
+                        comp = st.value.args[0]
+                        recv = st.value.func.value
+                        cvars = {n.id for g in comp.generators for n in ast.walk(g.target) if isinstance(n, ast.Name)}
+                        elsewhere = [n for n in ast.walk(fn) if isinstance(n, ast.Name) and n.id in cvars and not any(n is x for x in ast.walk(comp)) and not _rebound_around(fn, n)]
+                        # a list comprehension is built completely before extend sees it: only the lazy form is the loop, unless building cannot fail half way
+                        if not elsewhere and isinstance(comp, ast.GeneratorExp) and not any(isinstance(n, ast.Name) and n.id in cvars for n in ast.walk(recv)):
+                            body = [ast.copy_location(ast.Expr(value=ast.Call(func=ast.Attribute(value=copy.deepcopy(recv), attr='append', ctx=ast.Load()), args=[comp.elt], keywords=[])), st)]
+                            for g in reversed(comp.generators):
+                                for c in reversed(g.ifs):
+                                    body = [ast.copy_location(ast.If(test=c, body=body, orelse=[]), st)]
+                                body = [ast.copy_location(ast.For(target=g.target, iter=g.iter, body=body, orelse=[], lineno=st.lineno), st)]
+                                for n in ast.walk(g.target):
+                                    if isinstance(n, ast.Name):
+                                        n.ctx = ast.Store()
+                            block[i:i + 1] = body
+                            changed = True
+                            total += 1
+                            break
                     ann = isinstance(st, ast.AnnAssign) and st.value is not None and isinstance(st.target, ast.Name)
                     self_attr = isinstance(st, ast.Assign) and len(st.targets) == 1 and isinstance(st.targets[0], ast.Attribute) and \
                         isinstance(st.targets[0].value, ast.Name) and st.targets[0].value.id == 'self'
@@ -2784,14 +3251,14 @@ def normalise(tree, path, ref_locals, model=None):
     if ref is None:
         return {}
     out = {}
-    for name, fn in (('moved', lambda: pull_back_moved(tree, ref, path, model)), ('match', lambda: lower_match(tree, ref)), ('enums', lambda: dissolve_enums(tree, ref)), ('namedtuples', lambda: dissolve_namedtuples(tree, ref)), ('regroup', lambda: regroup_indexed_reads(tree, ref, ref_locals)), ('dataclasses', lambda: undo_dataclasses(tree, ref)), ('dispatch', lambda: undo_dispatch_tables(tree, ref)),
+    for name, fn in (('moved', lambda: pull_back_moved(tree, ref, path, model) + drop_moved_away(tree, ref, path, model)), ('match', lambda: lower_match(tree, ref)), ('enums', lambda: dissolve_enums(tree, ref)), ('namedtuples', lambda: dissolve_namedtuples(tree, ref, path, model)), ('regroup', lambda: regroup_indexed_reads(tree, ref, ref_locals)), ('dataclasses', lambda: undo_dataclasses(tree, ref)), ('dispatch', lambda: undo_dispatch_tables(tree, ref)),
                      ('annotations', lambda: strip_annotations(tree, ref)), ('imports', lambda: normalise_imports(tree, ref)), ('attributes', lambda: rename_attributes(tree, ref)),
-                     ('methods', lambda: rename_methods(tree, ref)), ('formats', lambda: restyle_formats(tree, ref)), ('closures', lambda: restore_closures(tree, ref)), ('self', lambda: restore_self(tree, ref)), ('tuples', lambda: split_tuple_bindings(tree, ref)), ('suppress', lambda: expand_suppress(tree, ref)), ('constants', lambda: _constants(tree, ref)),
+                     ('methods', lambda: rename_methods(tree, ref)), ('formats', lambda: restyle_formats(tree, ref)), ('closures', lambda: restore_closures(tree, ref) + restore_closures_from_objects(tree, ref)), ('self', lambda: restore_self(tree, ref)), ('tuples', lambda: split_tuple_bindings(tree, ref)), ('suppress', lambda: expand_suppress(tree, ref)), ('constants', lambda: _constants(tree, ref)),
                      ('observability', lambda: drop_observability(tree, ref)), ('params', lambda: default_new_params(tree, ref) + default_new_params(tree, ref)), ('initliterals', lambda: inline_init_literals(tree, ref)),
                      ('structs', lambda: inline_struct_objects(tree, ref)),
-                     ('helpers', lambda: inline_helpers(tree, ref)), ('records', lambda: scalarise_records(tree, ref)), ('decided', lambda: fold_decided_branches(tree, ref)), ('trivia', lambda: drop_trivia(tree, ref)), ('ifexps', lambda: expand_ifexps(tree, ref)), ('boolreturns', lambda: expand_bool_returns(tree, ref)),
+                     ('anytests', lambda: lower_any_tests(tree, ref)), ('helpers', lambda: inline_helpers(tree, ref)), ('namedtuples2', lambda: dissolve_namedtuples(tree, ref, path, model)), ('records', lambda: scalarise_records(tree, ref)), ('tuplevars', lambda: scalarise_tuple_locals(tree, ref, ref_locals)), ('decided', lambda: fold_decided_branches(tree, ref)), ('trivia', lambda: drop_trivia(tree, ref)), ('ifexps', lambda: expand_ifexps(tree, ref)), ('boolreturns', lambda: expand_bool_returns(tree, ref)),
                      ('unrolled', lambda: unroll_loops(tree, ref)),
-                     ('comprehensions', lambda: expand_comprehensions(tree, ref)),
+                     ('comprehensions', lambda: expand_comprehensions(tree, ref)), ('ifexps2', lambda: expand_ifexps(tree, ref)),
                      ('temps', lambda: inline_temps(tree, path, ref_locals or {}))):
         try:
             k = fn()
